@@ -46,7 +46,7 @@ theorem unary_signals_map (rec : Rec) (k : UnKind) (c : Op) (env : Env) (i : Nat
 
 theorem successor_not_started_while_first_runs (rec : Rec) (k : BinKind) (b : Op) (st : BinSt)
     (env : Env) (ra : Res) (h : ra.2.2 = none) :
-    seqAfterFirst rec k b st env ra = (.bin k ra.1 b { st with ph := .running, env := env }, ra.2.1, none) := by
+    seqAfterFirst rec k b st env ra = (.bin k ra.1 b { st with ph := .running, second := false, env := env }, ra.2.1, none) := by
   simp [seqAfterFirst, h]
 
 theorem short_circuit (rec : Rec) (k : BinKind) (b : Op) (st : BinSt) (env : Env) (ra : Res) (o : Outcome)
@@ -113,7 +113,7 @@ theorem waStart_inline (rec : Rec) (a b : Op) (env0 : Env) (oa ob : Outcome)
     (waStart rec a b BinSt.init env0).2.2 = some (if env0.stopped then .done else whenAllSpec oa ob) := by
   obtain ⟨s0, sb, tg, ar⟩ := env0
   cases oa <;> cases ob <;> cases s0 <;>
-    simp_all [waStart, waRec, waRecord, markSrc, recIf, waFinish, whenAllResult, whenAllSpec, BinSt.init,
+    simp_all [waStart, waAfterChild, waRec, waRecord, markSrc, recIf, waFinish, whenAllResult, whenAllSpec, BinSt.init,
       Outcome.isValue]
 
 theorem swStart_inline (rec : Rec) (a b : Op) (env0 : Env) (oa ob : Outcome)
@@ -121,7 +121,7 @@ theorem swStart_inline (rec : Rec) (a b : Op) (env0 : Env) (oa ob : Outcome)
     (hb : (rec (.start { env0 with stopped := true, stoppable := true }) b).2.2 = some ob) :
     (swStart rec a b BinSt.init env0).2.2 = some oa := by
   obtain ⟨s0, sb, tg, ar⟩ := env0
-  simp_all [swStart, setRa, setRb, markSrc, recIf, swFinish, BinSt.init]
+  simp_all [swStart, swAfterChild, setRa, setRb, markSrc, recIf, swFinish, BinSt.init]
 
 theorem seq_inline (rec : Rec) (k : BinKind) (a b : Op) (env : Env) (oa ob : Outcome)
     (ha : (rec (.start env) a).2.2 = some oa) (hb : (rec (.start (k.succEnv env oa)) b).2.2 = some ob) :
